@@ -54,11 +54,13 @@ FORMS = {
     # same xpaths, group vs repeat structure (is_parent_a_repeat / share_same_repeat_parent caches)
     "grp": {"survey": [{"type": "begin group", "name": "g", "label": "G"}, {"type": "text", "name": "q1", "label": "Q1"},
                        {"type": "integer", "name": "q2", "label": "Q2 ${q1}", "relevant": "${q1} != ''", "constraint": ". > 1 and ${q1} != 'a'"},
-                       {"type": "end group"}, {"type": "calculate", "name": "k", "calculation": "${q2} + 1"}]},
+                       {"type": "end group"}, {"type": "calculate", "name": "k", "calculation": "${q2} + 1"}],
+            "settings": [{"instance_name": "concat('grp-', ${q1})", "form_id": "grp_form", "version": "11"}]},
     "rep": {"survey": [{"type": "begin repeat", "name": "g", "label": "G"}, {"type": "text", "name": "q1", "label": "Q1"},
                        {"type": "integer", "name": "q2", "label": "Q2 ${q1}", "relevant": "${q1} != ''", "constraint": ". > 1 and ${q1} != 'a'"},
                        {"type": "begin repeat", "name": "h", "label": "H"}, {"type": "text", "name": "q3", "label": "Q3", "default": "${q1}", "relevant": "${q2} > 1"},
-                       {"type": "end repeat"}, {"type": "end repeat"}, {"type": "calculate", "name": "k", "calculation": "count(${q2}) + 1"}]},
+                       {"type": "end repeat"}, {"type": "end repeat"}, {"type": "calculate", "name": "k", "calculation": "count(${q2}) + 1"}],
+            "settings": [{"instance_name": "concat('rep-', ${k})", "form_id": "rep_form", "public_key": "PK", "submission_url": "https://x.example/s"}]},
     "rep2": {"survey": [{"type": "text", "name": "t", "label": "T"}, {"type": "begin repeat", "name": "r", "label": "R", "repeat_count": "${t}"},
                         {"type": "text", "name": "a", "label": "A"}, {"type": "begin group", "name": "gg", "label": "GG"},
                         {"type": "text", "name": "b", "label": "B ${a}", "relevant": "${a} != ''", "calculation": "concat(${a}, ${t})"},
@@ -77,6 +79,9 @@ FORMS = {
     "ent": {"survey": [{"type": "text", "name": "a", "label": "A", "save_to": "p"}, {"type": "text", "name": "b", "label": "B", "instance::zz:u": "1"}],
             "entities": [{"list_name": "trees", "label": "${a}"}],
             "settings": [{"namespaces": 'zz="http://zz.example" yy="http://yy.example"', "form_title": "T"}]},
+    # an entity *update* declaration (entity_id, update_if, no label): next to "ent" (create) it exercises everything the two kinds share
+    "ent2": {"survey": [{"type": "text", "name": "eid", "label": "E"}, {"type": "text", "name": "c", "label": "C", "save_to": "pc"}],
+             "entities": [{"list_name": "shrubs", "entity_id": "${eid}", "update_if": "${c} != ''"}]},
     # translations: hint + guidance padded into another language, media, choices translated
     "tr": {"survey": [{"type": "text", "name": "q", "label::English (en)": "Q", "hint::English (en)": "H ${q2}", "guidance_hint::English (en)": "G",
                        "media::image::English (en)": "a.png"},
@@ -99,10 +104,10 @@ FORMS = {
             "external_choices": [{"list_name": "e", "name": "p", "label": "P", "state": "s1"}, {"list_name": "e", "name": "r", "state": "s2", "zone": "z"}]},
 }
 NAMES = list(FORMS)
-HIST = ["grp", "rep", "inst", "other", "ent", "tr", "search", "ext", "dl"]
+HIST = ["grp", "rep", "inst", "other", "ent", "ent2", "tr", "search", "ext", "dl"]
 PROBE = ["long", "guidance", "image", "audio", "video", "big-image", "default", "English (en)", "French (fr)", "label", "hint", "name", "list_name", "state", "zone"]
 
-QUICK_PAIRS = [("grp", "rep"), ("rep", "rep2"), ("inst", "inst2"), ("inst", "inst"), ("other", "ent"), ("tr", "search"), ("search", "dl")]
+QUICK_PAIRS = [("grp", "rep"), ("rep", "rep2"), ("inst", "inst2"), ("inst", "inst"), ("other", "ent"), ("tr", "search"), ("search", "dl"), ("ent", "ent2")]
 QUICK_WARM = [("rep", "rep2")]
 TRIPLES = [("grp", "rep", "rep2"), ("inst", "inst2", "inst")]
 B2_PAIRS = [("rep", "rep2"), ("inst", "inst2"), ("grp", "rep"), ("other", "ent")]
